@@ -15,7 +15,7 @@ from ..common import CompletionSem, is_awaited, in_loop, ancestors, resolve_sing
 from ..selftest import Seed
 
 META = {
-    "technique": "must-pass-through on a CFG with exception edges, reaching definitions of the failure value, def-use of the message id, path enumeration of future completion, thread-ownership (execution-context) analysis",
+    "technique": "must-pass-through on a CFG with exception edges, reaching definitions of the failure value, def-use of the message id, path enumeration of future completion, thread-ownership (execution-context) analysis, reply-or-exit path rule in the listener, gate rule (send stream read at send time; no suspension point between flushing the pending table and resetting the stream)",
     "level_text": "Static proof over all exits of the client run loop and the server command that pending futures are failed on every way out with a non-None exception, that completion is id-matched and exactly-once, and that the pending table is only mutated on the io loop. These are properties of fault positions and interleavings (connection lost at any point, close racing a call, handler raising inside a handler) that mocked single-call tests do not reach; timing is not decided.",
     "level_note": "decides the structural clause below from source; does not decide the behaviour. Trusted: asyncio futures (set_exception(None) raises TypeError; a future completed twice raises InvalidStateError); a coroutine passed to run_coroutine_threadsafe/create_task on the io loop runs on that loop's thread; any call may raise.",
     "explanation": (
@@ -23,7 +23,8 @@ META = {
         "outstanding; every exit and the outer loop's back edge must have passed the fail-all routine), reaching definitions of the value given "
         "to set_exception, shape of the fail-all routine, def-use of (id, message) in the listener and of the id/future in call(), per-path "
         "completion counts of the result future in execute_server_command (exception edges included), and execution contexts of every "
-        "mutation of the pending table."),
+        "mutation of the pending table."
+        " R9: after a request was handed to the interpreter every normal return of the listener has sent the reply; R10: the registering coroutine sends through self.<stream> read on the io loop, and every function that flushes the pending table has reset that attribute before, or resets it afterwards with no await in between."),
     "assumptions": ["coroutines of NetworkClient run on the io loop (they are only scheduled through ioloop.call_soon_threadsafe / run_coroutine_threadsafe / awaited from other coroutines)"],
 }
 
